@@ -88,32 +88,32 @@ theorem components_push_wf {d b : Str} (hd : d ≠ []) (hb : Wf b) :
 /-! ### (B) re-collecting components is the identity on component lists -/
 
 /-- a body component as produced by `components`: `..` or a proper `Normal` -/
-def BodyC (c : Comp) : Prop := c = .parent ∨ ∃ p, c = .normal p ∧ BodyPiece p ∧ p ≠ ['.', '.']
+def BodyCU (c : Comp) : Prop := c = .parent ∨ ∃ p, c = .normal p ∧ BodyPiece p ∧ p ≠ ['.', '.']
 
-theorem BodyC.bodyPiece {c : Comp} (h : BodyC c) : BodyPiece c.str := by
+theorem BodyCU.bodyPiece {c : Comp} (h : BodyCU c) : BodyPiece c.str := by
   rcases h with rfl | ⟨p, rfl, hp, _⟩
   · exact bodyPiece_dotdot
   · exact hp
 
-theorem BodyC.bodyComp_str {c : Comp} (h : BodyC c) : bodyComp c.str = some c := by
+theorem BodyCU.bodyComp_str {c : Comp} (h : BodyCU c) : bodyComp c.str = some c := by
   rcases h with rfl | ⟨p, rfl, hp, hne⟩
   · decide
   · show bodyComp p = _
     rw [bodyComp_of_bodyPiece hp, if_neg hne]
 
-theorem bodyC_of_bodyComp {p : Str} {c : Comp} (hp : '/' ∉ p) (hc : bodyComp p = some c) : BodyC c := by
+theorem bodyCU_of_bodyComp {p : Str} {c : Comp} (hp : '/' ∉ p) (hc : bodyComp p = some c) : BodyCU c := by
   have hb := bodyPiece_of_bodyComp hp hc
   rw [bodyComp_of_bodyPiece hb] at hc
   by_cases h : p = ['.', '.']
   · rw [if_pos h] at hc; exact Or.inl (Option.some.inj hc).symm
   · rw [if_neg h] at hc; exact Or.inr ⟨p, (Option.some.inj hc).symm, hb, h⟩
 
-theorem bodyC_filterMap {ps : List Str} (h : ∀ p ∈ ps, '/' ∉ p) : ∀ c ∈ ps.filterMap bodyComp, BodyC c := by
+theorem bodyCU_filterMap {ps : List Str} (h : ∀ p ∈ ps, '/' ∉ p) : ∀ c ∈ ps.filterMap bodyComp, BodyCU c := by
   intro c hc
   obtain ⟨p, hp, hpc⟩ := List.mem_filterMap.1 hc
-  exact bodyC_of_bodyComp (h p hp) hpc
+  exact bodyCU_of_bodyComp (h p hp) hpc
 
-theorem filterMap_map_str {body : List Comp} (h : ∀ c ∈ body, BodyC c) :
+theorem filterMap_map_str {body : List Comp} (h : ∀ c ∈ body, BodyCU c) :
     (body.map Comp.str).filterMap bodyComp = body := by
   induction body with
   | nil => rfl
@@ -123,9 +123,9 @@ theorem filterMap_map_str {body : List Comp} (h : ∀ c ∈ body, BodyC c) :
     rw [ih (fun c' hc' => h c' (by simp [hc']))]
 
 /-- the three shapes of `components s` -/
-theorem components_shape (s : Str) : ∃ body, (∀ c ∈ body, BodyC c) ∧
+theorem components_shape (s : Str) : ∃ body, (∀ c ∈ body, BodyCU c) ∧
     (components s = .root :: body ∨ components s = .cur :: body ∨ components s = body) := by
-  refine ⟨(splitSlash s).filterMap bodyComp, bodyC_filterMap (not_mem_of_mem_splitOn '/' s), ?_⟩
+  refine ⟨(splitSlash s).filterMap bodyComp, bodyCU_filterMap (not_mem_of_mem_splitOn '/' s), ?_⟩
   unfold components
   cases isRooted s
   · by_cases h : (splitSlash s).head? = some ['.'] <;> simp [h]
@@ -144,7 +144,7 @@ theorem components_bufOf {r : Bool} {ps : List Str} (h : ∀ p ∈ ps, BodyPiece
     · have : bodyComp [] = none := by decide
       simp [this]
 
-theorem bodyPiece_map_str {body : List Comp} (h : ∀ c ∈ body, BodyC c) :
+theorem bodyPiece_map_str {body : List Comp} (h : ∀ c ∈ body, BodyCU c) :
     ∀ q ∈ body.map Comp.str, BodyPiece q := by
   intro q hq
   obtain ⟨c, hc, rfl⟩ := List.mem_map.1 hq
@@ -174,14 +174,14 @@ theorem foldl_push_prefix (pre : Str) (cs : List Comp) (hcs : ∀ c ∈ cs, isRo
     rw [List.foldl_cons, List.foldl_cons, push_prefix pre hX hc,
       ih (fun c' hc' => hcs c' (by simp [hc'])) _ (push_ne_nil hX _ hc)]
 
-theorem render_body {body : List Comp} (h : ∀ c ∈ body, BodyC c) :
+theorem render_body {body : List Comp} (h : ∀ c ∈ body, BodyCU c) :
     render body = bufOf false (body.map Comp.str) := by
   unfold render
   have h0 : ([] : Str) = bufOf false [] := by decide
   rw [h0, foldl_push_bufOf false body [] (by simp) (fun c hc => (h c hc).bodyPiece)]
   simp
 
-theorem render_root_body {body : List Comp} (h : ∀ c ∈ body, BodyC c) :
+theorem render_root_body {body : List Comp} (h : ∀ c ∈ body, BodyCU c) :
     render (.root :: body) = bufOf true (body.map Comp.str) := by
   unfold render
   rw [List.foldl_cons]
@@ -189,7 +189,7 @@ theorem render_root_body {body : List Comp} (h : ∀ c ∈ body, BodyC c) :
   rw [h0, foldl_push_bufOf true body [] (by simp) (fun c hc => (h c hc).bodyPiece)]
   simp
 
-theorem render_cur_body {b : Comp} {body : List Comp} (h : ∀ c ∈ b :: body, BodyC c) :
+theorem render_cur_body {b : Comp} {body : List Comp} (h : ∀ c ∈ b :: body, BodyCU c) :
     render (.cur :: b :: body) = ['.', '/'] ++ bufOf false ((b :: body).map Comp.str) := by
   have hb := (h b (by simp)).bodyPiece
   unfold render
